@@ -126,40 +126,13 @@ def handleDescent (j : Json) : Json :=
 
 /-! ### L-BFGS twins -/
 
-structure Pt (n : Nat) where
-  x : RVec n
-  g : RVec n
-  reset : Bool
-
-def pt? (n : Nat) (j : Json) : Option (Pt n) := do
+def pt? (n : Nat) (j : Json) : Option (Lbfgs.Point (RVec n)) := do
   let x ← (fRatList? j "x").bind (RVec.ofList? n)
   let g ← (fRatList? j "g").bind (RVec.ofList? n)
   let r := (fBool? j "reset").getD false
   some ⟨x, g, r⟩
 
 def freshL (n : Nat) : Lbfgs.LState (RVec n) := ⟨0, fun _ => 0, fun _ => 0, 0, 0⟩
-
-def runL {n : Nat} (m : Nat) : List (Pt n) → Lbfgs.LState (RVec n) → List (List Rat) → List (List Rat)
-  | [], _, acc => acc.reverse
-  | p :: r, st, acc =>
-    -- `reset()` keeps `_lastx`/`_lastgrad` (never read while `_k = 0`)
-    let st := if p.reset then { st with k := 0, s := fun _ => 0, y := fun _ => 0 } else st
-    let d := Lbfgs.lbfgsDir (K := Rat) RVec.dot m st p.x p.g (fun _ => 0)
-    runL m r d.2 (d.1.toList :: acc)
-
-def freshVL {n : Nat} (x g : RVec n) : Lbfgs.VLState Rat (RVec n) :=
-  ⟨0, fun _ => 0, fun _ => 0, x, g, fun _ _ => 0, fun _ _ => 0, fun _ _ => 0⟩
-
-def runVL {n : Nat} (m : Nat) : List (Pt n) → Option (Lbfgs.VLState Rat (RVec n)) → List (List Rat) → List (List Rat)
-  | [], _, acc => acc.reverse
-  | p :: r, st, acc =>
-    let st := if p.reset then none else st
-    -- try: self._information_store.add_new_point(x, gradient)  except AttributeError: fresh store
-    let st1 := match st with
-      | some s => Lbfgs.addNewPoint m s p.x p.g
-      | none => freshVL p.x p.g
-    let d := Lbfgs.vlDir (K := Rat) RVec.dot (fun g => RVec.dot g g) m st1 (fun _ => 0)
-    runVL m r (some d.2) (d.1.toList :: acc)
 
 def handleLbfgs (j : Json) : Json :=
   match fNat? j "n", fNat? j "maxhist" with
@@ -168,7 +141,10 @@ def handleLbfgs (j : Json) : Json :=
     | none => jErr "bad-args"
     | some pts =>
       if m = 0 then jErr "ZeroDivisionError" else
-      jObj [("l", jList jRats (runL m pts (freshL n) [])), ("vl", jList jRats (runVL m pts none []))]
+      let dl := Lbfgs.runL (K := Rat) RVec.dot m (fun _ => 0) (fun _ => 0) (fun _ => 0) pts (freshL n)
+      let dv := Lbfgs.runVL (K := Rat) RVec.dot (fun g => RVec.dot g g) m (fun _ => 0) (fun _ => 0) (fun _ => 0)
+        (fun _ _ => 0) pts none
+      jObj [("l", jList jRats (dl.map (·.toList))), ("vl", jList jRats (dv.map (·.toList)))]
   | _, _ => jErr "bad-args"
 
 end C16Driver
